@@ -40,6 +40,9 @@ OPERANDS = ["a", "b", "a.b", "x-y", "k=v", "a*", "?b", "[ab]c"]
 UNIVERSE = ["a", "b", "a.b", "x-y", "k=v", "Ab", "bc"]
 OPERANDS_SMALL = ["x-y", "a*", "[ab]c"]            # quick: depth<=2 exhaustive alphabet
 OPERANDS_MEDIUM = ["a", "x-y", "k=v", "a*", "?b"]  # thorough: all variants, depth<=2
+# -- bare wildcards: "*" is true for every NON-EMPTY tag set (some tag matches), "?" needs a one-character tag,
+#    "[!a]" a one-character tag other than a, "??" a two-character one (Ab, bc).
+OPERANDS_BARE = ["*", "?", "??", "[!a]", "a"]
 OPS = ("and", "or")
 
 N_SUBSETS = 1 << len(UNIVERSE)
@@ -339,6 +342,9 @@ def tree_cases(tier, rng, variants_deep=4, fills=3, n_random=None):
     # -- PART 1: depth <= 1 over all 8 operands, all variants.
     for tree in trees_upto(1, OPERANDS):
         yield tree, VARIANT_NAMES
+    # -- PART 1b: depth <= 1 over the degenerate patterns (bare wildcards), all variants.
+    for tree in trees_upto(1, OPERANDS_BARE):
+        yield tree, VARIANT_NAMES
     # -- PART 2: depth 2 (exactly) exhaustive.
     if tier == "quick":
         for tree in trees_upto(2, OPERANDS_SMALL):
@@ -607,7 +613,7 @@ def run_placeholder_empty(tier, rng):
 # =============================================================================
 # CHECKS
 # =============================================================================
-_SPACE = ("operands {a, b, a.b, x-y, k=v, a*, ?b, [ab]c}; complete truth table = all 128 subsets of "
+_SPACE = ("plus all 60 trees of depth <= 1 over the bare patterns {*, ?, ??, [!a]} and a; operands {a, b, a.b, x-y, k=v, a*, ?b, [ab]c}; complete truth table = all 128 subsets of "
           "the 7-tag universe {a, b, a.b, x-y, k=v, Ab, bc}; 11 renderings (plain, flat, full, "
           "redundant parentheses, @ on all / on every other operand, double spaces + outer spaces, "
           "padded, no spaces around parentheses, list-of-terms, list-of-terms with @)")
